@@ -199,26 +199,46 @@ func checkGrid(w *W, g *gridState, kind lib.Kind, mk func() Case, score float64,
 
 func sev3(o lib.Obj) string { _, s, _ := o.Severity(); return s }
 
+// scoreSev queries score and severity of o; sevFirst asks for the severity first (a severity derived from
+// a remembered score would then be stale).
+func scoreSev(o lib.Obj, sevFirst bool) (float64, string) {
+	if sevFirst {
+		s := sev3(o)
+		f, _ := o.Score()
+		return f, s
+	}
+	f, _ := o.Score()
+	return f, sev3(o)
+}
+
 // checkGrid3Obj checks all levels reachable from a v3 object.
 func checkGrid3Obj(w *W, g *gridState, o lib.Obj, c func() Case) {
 	var bands []string
+	sevFirst := w.Evals%2 == 1 // alternate the query order
+	if o.Kind == lib.K3E && sevFirst {
+		// top level first, then the views
+		f, sv := scoreSev(o, true)
+		bands = append(bands, checkGrid(w, g, lib.K3E, c, f, sv, false))
+	}
 	bv, _, _ := o.BaseView()
 	if !bv.IsNil() {
-		f, _ := bv.Score()
-		bands = append(bands, checkGrid(w, g, lib.K3B, c, f, sev3(bv), false))
+		f, sv := scoreSev(bv, sevFirst)
+		bands = append(bands, checkGrid(w, g, lib.K3B, c, f, sv, false))
 	}
 	switch o.Kind {
 	case lib.K3T:
-		f, _ := o.Score()
-		bands = append(bands, checkGrid(w, g, lib.K3T, c, f, sev3(o), false))
+		f, sv := scoreSev(o, sevFirst)
+		bands = append(bands, checkGrid(w, g, lib.K3T, c, f, sv, false))
 	case lib.K3E:
 		tv, _, _ := o.TemporalView()
 		if !tv.IsNil() {
-			f, _ := tv.Score()
-			bands = append(bands, checkGrid(w, g, lib.K3T, c, f, sev3(tv), false))
+			f, sv := scoreSev(tv, sevFirst)
+			bands = append(bands, checkGrid(w, g, lib.K3T, c, f, sv, false))
 		}
-		f, _ := o.Score()
-		bands = append(bands, checkGrid(w, g, lib.K3E, c, f, sev3(o), false))
+		if !sevFirst {
+			f, sv := scoreSev(o, false)
+			bands = append(bands, checkGrid(w, g, lib.K3E, c, f, sv, false))
+		}
 	}
 	for i := 1; i < len(bands); i++ {
 		if bands[i] != bands[0] {
